@@ -82,6 +82,15 @@ def menu(name):
         m = [('text', TEXT[0]), ('blank', TEXT[1]), ('tagtext', TEXT[2])]
         m += directive_templates()
         m += continuation_templates()
+    elif name == 'small+':
+        # the small menu plus lines that only dedicated scenarios use (kept out of `small` so that its path counts stay put)
+        m = list(menu('small'))
+        m += [('include t.tmp', (b'#TXTPP#include t.tmp',)),          # another prefix than temp's: not a continuation
+              ('temp tab', (b'# TXTPP#temp\tt.tmp',)),              # a TAB after the name: NOT a directive (the grammar wants a space)
+              ('run tab', (b'# TXTPP#run\tc1',)),
+              ('empty tab', (b'# TXTPP#\tx',)),
+              ('cont hash', (b'# k', ('sym', ASCII_LINE))),
+              ('temp other', (b'+TXTPP#temp t.tmp',)), ('cont plus', (b'+n', ('sym', ASCII_LINE)))]
     elif name == 'text':
         m = [('text', TEXT[0]), ('blank', TEXT[1]), ('tagtext', TEXT[2])]
     else:
@@ -169,6 +178,7 @@ class SymEnv:
             env.add_file(WORK + b'/t.tmp', pre_temp)
         env.proc_handler = self.proc
         self.env = env
+        self.pre_temp = pre_temp
         return env
 
     def proc(self, it, rec):
@@ -200,6 +210,11 @@ class SymEnv:
     def include(self, ctx, arg):
         if specpp.beq(ctx, tuple(arg), (102,)):      # "f"
             return self.inc_content
+        if all(isinstance(b, int) for b in arg) and bytes(arg) == b't.tmp':
+            # the temp target itself: what the semantics has written to it so far, else what was lying there
+            if b't.tmp' in self.spec_temps:
+                return self.spec_temps[b't.tmp']
+            return self.pre_temp if isinstance(getattr(self, 'pre_temp', None), tuple) else None
         return None
 
     def run(self, ctx, cmd):
